@@ -29,7 +29,7 @@ def C(name, id_attr, extra=()):
     return {'name': name, 'id': id_attr, 'attrs': attrs}
 
 
-# the seven association shapes of the C02 quantifier -------------------------------------------------
+# the seven association shapes of the C02 quantifier (+ ref_id_chain) -------------------------------------------------
 SHAPES = {
     'one_one': {'classes': [C('A', 'Id', [('B_Id', 'unique_id')]), C('B', 'Id')],
                 'assocs': [A('R1', 0, ['B_Id'], False, True, '', 1, ['Id'], False, True, '')]},
@@ -45,6 +45,11 @@ SHAPES = {
     'subsuper': {'classes': [C('S', 'Id'), C('T1', None, [('Id', 'unique_id')]), C('T2', None, [('Id', 'unique_id')])],
                  'assocs': [A('R4', 1, ['Id'], False, True, '', 0, ['Id'], False, False, ''),
                             A('R4', 2, ['Id'], False, True, '', 0, ['Id'], False, False, '')]},
+    # a referential attribute that is also the IDENTIFYING attribute another class refers to: A.B_Id -> B.Id -> C.Id,
+    # so a read of A.B_Id follows two links (audit round 1: reads through a referential identifying key)
+    'ref_id_chain': {'classes': [C('A', 'Id', [('B_Id', 'unique_id')]), C('B', None, [('Id', 'unique_id')]), C('C', 'Id')],
+                     'assocs': [A('R8', 0, ['B_Id'], True, True, '', 1, ['Id'], False, True, ''),
+                                A('R9', 1, ['Id'], False, True, '', 2, ['Id'], False, True, '')]},
     'two_assocs_shared_ref': {'classes': [C('A', 'Id', [('X_Id', 'unique_id')]), C('B', 'Id'), C('D', 'Id')],
                               'assocs': [A('R5', 0, ['X_Id'], True, True, '', 1, ['Id'], False, True, ''),
                                          A('R6', 0, ['X_Id'], False, True, '', 2, ['Id'], True, True, '')]},
